@@ -112,6 +112,19 @@ pub fn wrappers(x: &str, cfg: &Cfg, tier: Tier) -> Vec<(String, String, Vec<(Str
         }
         out.push((format!("ol start={st} with empty items {empties:?}"), format!("<ol start=\"{st}\">{items}</ol>"), parts));
     }
+    // items that carry an id (a fragment marker is attached to the item): still one number each
+    {
+        let (st, n) = (8i64, 3usize);
+        let pre = ol_prefixes(cfg, st, n);
+        let mut items = String::new();
+        let mut parts = vec![];
+        for k in 0..n {
+            let c = if k == n - 1 { x.to_string() } else { fill[k % 2].to_string() };
+            items.push_str(&if k == 0 { format!("<li>{c}</li>") } else { format!("<li id=\"i{k}\">{c}</li>") });
+            parts.push((pre[k].0.clone(), pre[k].1.clone(), c));
+        }
+        out.push(("ol start=8 with ids on the items".to_string(), format!("<ol start=\"{st}\">{items}</ol>"), parts));
+    }
     let starts: Vec<Option<i64>> = vec![None, Some(-100), Some(-10), Some(-1), Some(0), Some(1), Some(8), Some(9), Some(98), Some(99), Some(999)];
     let counts: Vec<usize> = tier.pick(vec![1, 2, 3, 11], vec![1, 2, 3, 4, 10, 11, 12, 15]);
     for st in &starts {
@@ -231,7 +244,7 @@ impl Scope for S {
     }
     fn info(&self) -> Info {
         Info {
-            rule: "wrappers {blockquote, ul (1 and 3 items), h1..h6, dl/dd, dl with two term/definition pairs, ol with start in {absent,-100,-10,-1,0,1,8,9,98,99,999} and 1..15 items} around every content document of the grammar (so prefixes stack), x widths x {rich, plain without footnotes, trivial, rich+pad, rich+max_wrap_width}; every outer rendering is compared with the composition of the separately rendered contents; non-trivial = some item has a continuation line".into(),
+            rule: "wrappers {blockquote, ul (1 and 3 items), h1..h6, dl/dd, dl with two term/definition pairs, ol with start in {absent,-100,-10,-1,0,1,8,9,98,99,999} and 1..15 items, ol whose items carry ids} around every content document of the grammar (so prefixes stack), x widths x {rich, plain without footnotes, trivial, rich+pad, rich+max_wrap_width}; every outer rendering is compared with the composition of the separately rendered contents; non-trivial = some item has a continuation line".into(),
             bounds: json!({"contents": self.contents.len(), "widths": self.widths, "configurations": cfgs().iter().map(|c| c.short()).collect::<Vec<_>>()}),
             assumptions: vec!["link footnotes are disabled (their numbering is global by design; C08 covers it)".into()],
         }
